@@ -166,7 +166,16 @@ func c11Config(r *mon.Run, rng *rand.Rand, idx int) {
 	w.Reuse = rng.IntN(2) == 0
 	if rng.IntN(3) == 0 {
 		a := rng.IntN(65536)
+		switch rng.IntN(6) {
+		case 0, 1:
+			a = 0 // the lowest valid bound
+		case 2:
+			a = []int{1, 1023, 1024, 30041, 65535}[rng.IntN(5)]
+		}
 		b := a + rng.IntN(65536-a)
+		if rng.IntN(5) == 0 {
+			b = 65535
+		}
 		if a == 0 && b == 0 {
 			b = 1 + rng.IntN(1000)
 		}
